@@ -12,6 +12,9 @@ package main
 //     the conditions of the enclosing if-statements (`!cond` for an else branch). `source_cleanup_ranges_over_new`
 //     decides on them that the clean-up after a failed MessagesCreated transaction ranges over a collection that only
 //     receives messages the database did not know (the model's `handlerOf`: delete the NEW ids only).
+//   * the `return` statements of deleteAllMessagesMarkedDeleted / cleanupStaleStoreData with their guards
+//     (`source_startup_cleanup_unconditional`: only a failed read ends a pass before its store.Delete - the model's
+//     `recover` removes EVERY file without a row, whatever the two id lists look like).
 
 import (
 	"fmt"
@@ -249,7 +252,72 @@ func factsCrash(c *factsCtx, outdir string) error {
 	b.WriteString("/-- (function, collection) for every `range` loop of an anchored function whose body deletes cache files -/\n")
 	b.WriteString("def crashCleanupLoops : List (String × String) := [" + strings.Join(loops, ", ") + "]\n\n")
 	b.WriteString("/-- (function, collection, conditions of the enclosing if-statements) for every statement of these functions that makes a collection grow (`x = append(x, ..)`, `x[k] = v`) -/\n")
-	b.WriteString("def crashGrowthSites : List (String × String × List String) := [\n  " + strings.Join(sites, ",\n  ") + "\n]\n\nend Gluon.Facts\n")
+	b.WriteString("def crashGrowthSites : List (String × String × List String) := [\n  " + strings.Join(sites, ",\n  ") + "\n]\n\n")
+	// return statements of the two start-up clean-up passes (not those of nested function literals), in source order,
+	// with the conditions of the enclosing if / for / switch statements: `source_startup_cleanup_unconditional` decides
+	// on them that nothing but a failed read ends the pass before its store.Delete
+	var rets []string
+	for _, fn := range []string{"user.deleteAllMessagesMarkedDeleted", "user.cleanupStaleStoreData"} {
+		for _, f := range c.parseDir("internal/backend") {
+			for _, d := range f.Decls {
+				fd, ok := d.(*ast.FuncDecl)
+				if !ok || fd.Body == nil || funcQualName(fd) != fn {
+					continue
+				}
+				var walk func(n ast.Node, guards []string)
+				walk = func(n ast.Node, guards []string) {
+					switch x := n.(type) {
+					case nil:
+						return
+					case *ast.FuncLit:
+						return
+					case *ast.IfStmt:
+						if x.Init != nil {
+							walk(x.Init, guards)
+						}
+						cond := types.ExprString(x.Cond)
+						walk(x.Body, append(append([]string{}, guards...), cond))
+						if x.Else != nil {
+							walk(x.Else, append(append([]string{}, guards...), "!("+cond+")"))
+						}
+						return
+					case *ast.ForStmt:
+						walk(x.Body, append(append([]string{}, guards...), "for"))
+						return
+					case *ast.RangeStmt:
+						walk(x.Body, append(append([]string{}, guards...), "range"))
+						return
+					case *ast.SwitchStmt:
+						walk(x.Body, append(append([]string{}, guards...), "switch"))
+						return
+					case *ast.TypeSwitchStmt:
+						walk(x.Body, append(append([]string{}, guards...), "switch"))
+						return
+					case *ast.SelectStmt:
+						walk(x.Body, append(append([]string{}, guards...), "select"))
+						return
+					case *ast.ReturnStmt:
+						var rs []string
+						for _, r := range x.Results {
+							rs = append(rs, types.ExprString(r))
+						}
+						rets = append(rets, fmt.Sprintf("(%s, %s, %s)", leanStr(fn), leanStrList(guards), leanStr(strings.Join(rs, ", "))))
+						return
+					}
+					ast.Inspect(n, func(m ast.Node) bool {
+						if m == n || m == nil {
+							return true
+						}
+						walk(m, guards)
+						return false
+					})
+				}
+				walk(fd.Body, nil)
+			}
+		}
+	}
+	b.WriteString("/-- (function, conditions of the enclosing if / loop / switch statements, returned expressions) for every `return` of the two start-up clean-up passes (nested function literals excluded), in source order -/\n")
+	b.WriteString("def crashStartupReturns : List (String × List String × String) := [\n  " + strings.Join(rets, ",\n  ") + "\n]\n\nend Gluon.Facts\n")
 	return writeLean(outdir, "Crash.lean", b.String())
 }
 
